@@ -64,7 +64,8 @@ SwapFaults(b) == UNION { {[op |-> "swap", a |-> i, b |-> j] : j \in RangeLines(b
 CutPoints(b) == ({0} \cup UNION { {c - 1, c, c + 1} : c \in {b.cuts[i] : i \in 1..Len(b.cuts)} }) \cap 0..(b.total - 1)
 CutFaults(b) == {[op |-> "cut", at |-> c] : c \in CutPoints(b)}
 \* "x80" / "xFF" are not characters: the harness sets the high bit of the byte / writes 0xFF (bytes that are not UTF-8)
-FlipChars == <<"{", "}", "\"", " ", "\n", "Z", "9", "-", "*", "[", "x80", "xFF">>
+\* "2" / "0": an even or zero count where a window row announces its width, another state tag, node id or PDF id elsewhere
+FlipChars == <<"{", "}", "\"", " ", "\n", "Z", "9", "-", "*", "[", "x80", "xFF", "2", "0">>
 \* grid of G positions inside every text range plus its two ends
 \* ... and the fourth and sixth byte of the range (inside the first question name of a tree section: "QS name {..}")
 FlipPoints(b, G) == UNION { {b.texts[t].lo, b.texts[t].hi} \cup ({b.texts[t].lo + 3, b.texts[t].lo + 5} \cap b.texts[t].lo..b.texts[t].hi) \cup
